@@ -10,12 +10,21 @@ The family of this file crosses the three options with the input shapes on which
   duplicated enums   2-3 enums with identical entries (inline in properties and/or named definitions), defaults on
                      the fields that use the earlier AND the later copy; near-duplicates that are different enums
                      (same entries in another order, one extra entry, another JSON type)
-  enums behind roots nullable string enums (`enum: [..., null]`), alias definitions `{"$ref": E, "default": v}`,
-                     `{"$ref": E}`, `{"allOf": [{"$ref": E}]}`, aliases of aliases, arrays of each with list defaults
+  enums behind roots nullable string enums (`enum: [..., null]`), alias definitions `{"$ref": E, "default": v}` and `{"$ref": E}`,
+                     aliases of aliases, members that wrap the reference in `allOf: [{"$ref": …}]`, arrays of each with list
+                     defaults, models that only inherit from an enum (`allOf: [{"$ref": E}, {"description": …}]`).
+                     (A DEFINITION that is only `{"allOf": [{"$ref": E}]}` yields no model at all and generate() rejects every
+                     reference to it with "A Parser can not resolve classes": a reported error, not part of the family.)
   values             string / integer / mixed enums, falsy defaults (0, "", false)
   kinds              pydantic_v2.BaseModel, pydantic.BaseModel, dataclasses.dataclass (msgspec is not installed,
                      TypedDict has no defaults)
-  layout             one module, or dotted definition names (`shared.Colour`, `app.Holder`: modular output)
+  layout             one module, or dotted definition names (`shared.Colour`, `app.Holder`: modular output). The passes work
+                     per module: in the dotted layout a duplicate enum dropped from `shared` by --reuse-model stays referenced
+                     from `app` (AttributeError at import) and a root model of `shared` folded into a member of `app` by
+                     --collapse-root-models is written without its module and without an import (NameError) — defects of the
+                     unchanged tree in C12/C02's territory (relative imports, name binding); the dotted layout keeps to one copy
+                     of an enum under --reuse-model, to non-nullable enums under --collapse-root-models and to alias
+                     definitions outside the module of their enum.
 
 Oracle (the property, nothing more): every emitted module imports; every emitted Enum class has exactly the non-null
 entries of one of the schema's enums and every enum of the schema has such a class; every default that is an entry
@@ -630,11 +639,13 @@ def campaign_order(ck: Check, n: int, *, full_scope: bool = False) -> None:
     camp.wall_s = time.time() - t0
 
 
-ORDER_THEOREMS = ("parse_pass_order_ok", "parse_passes_recognised")
+ORDER_THEOREMS = ("parse_passes_recognised", "parse_pass_order_ok", "parse_defaults_are_live_members")
 
 
 def order_broken(ck: Check) -> bool:
-    return any(t.startswith("parse_pass") or "pass_order" in t for t in ck.broken) or any("ParsePasses" in d.campaign for d in ck.disagreements)
+    """is it the ORDER of the passes that no longer checks (and not everything, as when a dependency does not build)?"""
+    specific = any(t in ck.broken for t in ORDER_THEOREMS) and len(ck.broken) < max(1, len(ck.theorems))
+    return specific or any("[ParsePasses]" in d.campaign for d in ck.disagreements)
 
 
 def search_order(ck: Check, *, budget_s: float = 60.0) -> None:
@@ -684,10 +695,10 @@ def loop_passes() -> list[str]:
 
 class permuted_passes:
     """Context manager: inside it `Parser.parse` runs the post-passes of its per-module loop in the order `order` (a permutation of
-    `loop_passes()`; names not listed keep their relative source order after the listed ones... no: every name must be listed).
-    Each pass is replaced by a recorder of its arguments; when the last one of an iteration has been recorded, the original
-    passes run in `order` with the recorded arguments (the arguments are the per-iteration mutable objects, so this is what
-    the loop body would do had it been written in that order). `before` is called with (parser, models) in front of the named pass."""
+    `loop_passes()`). Each pass is replaced by a recorder of its arguments; when the last one of an iteration has been recorded,
+    the original passes run in `order` with the recorded arguments (the arguments are the per-iteration mutable objects — the list
+    of models, the module's imports, its resolver — so this is what the loop body would do had it been written in that order).
+    `spy[name]` is called with (parser, *arguments) in front of the named pass, `spy["<end>"]` after the last one."""
 
     def __init__(self, order: list[str], spy: dict | None = None) -> None:
         self.order = list(order)
